@@ -575,10 +575,29 @@ func (w *Walker) impliedFacts(fr *Frame, cf CallFact, depth int) []FactT {
 }
 
 // hasFact: some fact matches all of the given substrings with the given polarity.
+// isOutcomeFact: the "f(args) : outcome" form of a call fact (always Holds).
+func isOutcomeFact(t string) bool {
+	for _, o := range []string{" : true", " : false", " : ok", " : !ok", " : err==nil", " : err!=nil"} {
+		if strings.HasSuffix(t, o) {
+			return true
+		}
+	}
+	return false
+}
+
 func hasFact(facts []FactT, holds bool, subs ...string) (FactT, bool) {
+	wantOutcome := false
+	for _, s := range subs {
+		if strings.Contains(s, " : ") {
+			wantOutcome = true
+		}
+	}
 	for _, f := range facts {
 		if f.Holds != holds {
 			continue
+		}
+		if !wantOutcome && isOutcomeFact(f.Text) {
+			continue // a pattern about a condition never matches a call-outcome fact by prefix
 		}
 		ok := true
 		for _, s := range subs {
